@@ -41,7 +41,7 @@ func (e *C17) Cases(tier string, _ int64) int {
 	return 800
 }
 func (e *C17) Floors(string) map[string]int {
-	return map[string]int{"C17.batches": 300, "C17.batches-with-failures": 200, "C17.sync-level-judged": 40, "C17.system-runs": 10, "C17.injected-errors": 2000}
+	return map[string]int{"C17.batches": 250, "C17.batches-with-failures": 150, "C17.sync-level-judged": 40, "C17.system-runs": 10, "C17.injected-errors": 2000}
 }
 
 func jitterHook(r *rand.Rand) func(string, *simapi.Call) {
@@ -61,11 +61,11 @@ func jitterHook(r *rand.Rand) func(string, *simapi.Call) {
 
 func (e *C17) Run(ctx *core.Ctx, idx int) {
 	switch idx % 8 {
-	case 0, 1, 2, 3, 4:
+	case 0, 1, 2, 3:
 		e.batch(ctx, idx)
-	case 5, 6:
+	case 4, 5:
 		e.syncLevel(ctx)
-	case 7:
+	case 6, 7:
 		e.system(ctx)
 	}
 }
@@ -417,6 +417,10 @@ func (e *C17) system(ctx *core.Ctx) {
 	ed.Spec.Template = kit.Tpl("A")
 	ed.Spec.Strategy = strat
 	w.CreateEDS(ed)
+	// a second ExtendedDaemonSet of the same namespace: its reconciles run in parallel with foo's
+	ed2 := ed.DeepCopy()
+	ed2.Name = "bar"
+	w.CreateEDS(ed2)
 	failProb := []float64{0, 0.1, 1}[r.Intn(3)]
 	fr := rand.New(rand.NewSource(r.Int63()))
 	w.S.Fault = func(call *simapi.Call) simapi.FaultKind {
@@ -468,8 +472,8 @@ func (e *C17) system(ctx *core.Ctx) {
 			}
 		}
 	}
-	run(rec("eds", func() []string { return []string{"foo"} }), seeds[0])
-	run(rec("podtemplate", func() []string { return []string{"foo"} }), seeds[1])
+	run(rec("eds", func() []string { return []string{"foo", "bar"} }), seeds[0])
+	run(rec("podtemplate", func() []string { return []string{"foo", "bar"} }), seeds[1])
 	run(rec("ers", func() []string {
 		var out []string
 		for _, rs := range kit.RSs(w.S) {
@@ -486,7 +490,7 @@ func (e *C17) system(ctx *core.Ctx) {
 		return out
 	}), seeds[3])
 	// a second worker per main controller (MaxConcurrentReconciles > 1 / different objects in flight)
-	run(rec("eds", func() []string { return []string{"foo"} }), seeds[7])
+	run(rec("eds", func() []string { return []string{"foo", "bar"} }), seeds[7])
 	run(rec("ers", func() []string {
 		var out []string
 		for _, rs := range kit.RSs(w.S) {
@@ -501,7 +505,7 @@ func (e *C17) system(ctx *core.Ctx) {
 		switch rr.Intn(6) {
 		case 0, 2:
 			// frequent template edits: replica sets are created and garbage-collected while others sync
-			w.S.Mutate(simapi.KindEDS, "ns1", "foo", func(o client.Object) {
+			w.S.Mutate(simapi.KindEDS, "ns1", []string{"foo", "bar"}[rr.Intn(2)], func(o client.Object) {
 				o.(*v1.ExtendedDaemonSet).Spec.Template = kit.Tpl([]string{"A", "B", "C"}[rr.Intn(3)])
 			})
 		case 1:
